@@ -1,10 +1,457 @@
-(* C19 - temporary skeleton (being extended) *)
-From Coq Require Import ZArith List Bool.
+(* C19 - Containers partition the available space exactly and proportionally.
+   Only statements here; every proof is [exact <lemma>] into Proofs/Layout*.v.
+
+   int_scale, calculate_left_right_padding, calculate_top_bottom_filler are the definitions
+   in Gen/layout_gen.v, regenerated from /repo/urwid/util.py, widget/padding.py and
+   widget/filler.py on every run: sections 1-3 are re-proved against what the code says now.
+   Sections 4-7 are about the hand model Model/Layout.v (tied to the code by the
+   extracted-model correspondence in harness/props/c19.py).
+   All statements are for arbitrary integers: no bound on sizes, weights or list lengths. *)
+From Coq Require Import ZArith List Bool Lia.
 Import ListNotations.
-From Urwid Require Import PyBase layout_gen Layout LayoutArith.
+From Urwid Require Import PyBase layout_gen Layout LayoutArith LayoutLists LayoutColumns LayoutOthers.
 Open Scope Z_scope.
 
-Theorem int_scale_range_thm : forall v vr out, 2 <= vr -> 1 <= out -> 0 <= v <= vr - 1 ->
-  0 <= int_scale v vr out <= out - 1.
+(* ================================================================== *)
+(* 1. int_scale (translated)                                           *)
+
+Theorem int_scale_range_thm : forall v vr out,
+  2 <= vr -> 1 <= out -> 0 <= v <= vr - 1 -> 0 <= int_scale v vr out <= out - 1.
 Proof. exact int_scale_range. Qed.
 Print Assumptions int_scale_range_thm.
+
+Theorem int_scale_monotone_thm : forall v1 v2 vr out,
+  2 <= vr -> 1 <= out -> v1 <= v2 -> int_scale v1 vr out <= int_scale v2 vr out.
+Proof. exact int_scale_monotone. Qed.
+Print Assumptions int_scale_monotone_thm.
+
+Theorem int_scale_endpoints : forall vr out,
+  2 <= vr -> int_scale 0 vr out = 0 /\ int_scale (vr - 1) vr out = out - 1.
+Proof. intros vr out H. split; [exact (int_scale_zero vr out H)|exact (int_scale_top vr out H)]. Qed.
+Print Assumptions int_scale_endpoints.
+
+(* round half up: the result s is the unique integer with  s - 1/2 <= v*(out-1)/(vr-1) < s + 1/2
+   shifted, i.e.  2(vr-1)s <= 2v(out-1) + (vr-1) < 2(vr-1)(s+1)  -- for every sign of v, out *)
+Theorem int_scale_rounds_half_up : forall v vr out, 2 <= vr ->
+  let s := int_scale v vr out in
+  2 * (vr - 1) * s <= 2 * v * (out - 1) + (vr - 1) < 2 * (vr - 1) * (s + 1).
+Proof. exact int_scale_round. Qed.
+Print Assumptions int_scale_rounds_half_up.
+
+(* ================================================================== *)
+(* 2. calculate_left_right_padding (translated)                        *)
+(* clrp_width = the requested width: the given/clip amount, or the rounded percentage of
+   the space beside the fixed margins, at least min_width (LayoutArith.clrp_width).        *)
+
+(* clipping mode, every input: margins + child fill the space exactly *)
+Theorem clrp_clip : forall maxcol at_ aa wa minw left right,
+  let '(l, r) := calculate_left_right_padding maxcol at_ aa WClip wa minw left right in
+  l + wa + r = maxcol.
+Proof. exact clrp_clip_exact. Qed.
+Print Assumptions clrp_clip.
+
+(* every other mode, EVERY input (any margins, any alignment, any sign): the margins are never
+   negative and the child gets min(requested, available): the requested size when it fits
+   into the available space and the whole remaining space otherwise; hence margins + child =
+   available, and the child's size is non-negative as soon as requested and available are *)
+Theorem clrp_partition : forall maxcol at_ aa wt wa minw left right,
+  wt <> WClip ->
+  let W := clrp_width maxcol wt wa minw left right in
+  let '(l, r) := calculate_left_right_padding maxcol at_ aa wt wa minw left right in
+  0 <= l /\ 0 <= r /\ maxcol - l - r = Z.min W maxcol.
+Proof. exact clrp_child. Qed.
+Print Assumptions clrp_partition.
+
+(* when the requested size fits beside the fixed margins (any mode): the child gets exactly it,
+   both fixed margins are kept, and the spare space P is split by the alignment percentage A
+   to within rounding: | (l - left) - A*P/100 | <= 1/2 *)
+Theorem clrp_align : forall maxcol at_ aa wt wa minw left right,
+  let W := clrp_width maxcol wt wa minw left right in
+  let A := align_pct at_ aa in
+  0 <= A <= 100 -> 0 <= left -> 0 <= right -> 0 <= W -> left + W + right <= maxcol ->
+  let P := maxcol - W - left - right in
+  let '(l, r) := calculate_left_right_padding maxcol at_ aa wt wa minw left right in
+  l + W + r = maxcol /\ left <= l /\ right <= r /\
+  -100 <= 200 * (l - left) - 2 * A * P <= 100.
+Proof. exact clrp_fits. Qed.
+Print Assumptions clrp_align.
+
+(* the relative width is the percentage of the space beside the margins rounded half up *)
+Theorem clrp_relative_width : forall maxcol wa minw left right, 0 <= wa ->
+  let avail := Z.max (maxcol - left - right) 0 in
+  let w := round_half_up_div (avail * wa) 100 in
+  200 * w <= 2 * (avail * wa) + 100 < 200 * (w + 1) /\ 0 <= w /\
+  clrp_width maxcol WRelative wa minw left right = match minw with Some m => Z.max w m | None => w end.
+Proof. exact clrp_width_relative. Qed.
+Print Assumptions clrp_relative_width.
+
+(* ================================================================== *)
+(* 3. calculate_top_bottom_filler (translated)                         *)
+
+Theorem ctbf_partition : forall maxrow vt va ht ha minh top bottom,
+  let H := ctbf_height maxrow ht ha minh top bottom in
+  let '(t, b) := calculate_top_bottom_filler maxrow vt va ht ha minh top bottom in
+  0 <= t /\ 0 <= b /\ maxrow - t - b = Z.min H maxrow.
+Proof. exact ctbf_child. Qed.
+Print Assumptions ctbf_partition.
+
+Theorem ctbf_align : forall maxrow vt va ht ha minh top bottom,
+  let H := ctbf_height maxrow ht ha minh top bottom in
+  let A := valign_pct vt va in
+  0 <= A <= 100 -> 0 <= top -> 0 <= bottom -> 0 <= H -> top + H + bottom <= maxrow ->
+  let P := maxrow - H - top - bottom in
+  let '(t, b) := calculate_top_bottom_filler maxrow vt va ht ha minh top bottom in
+  t + H + b = maxrow /\ top <= t /\ bottom <= b /\
+  -100 <= 200 * (t - top) - 2 * A * P <= 100.
+Proof. exact ctbf_fits. Qed.
+Print Assumptions ctbf_align.
+
+Theorem ctbf_relative_height : forall maxrow ha minh top bottom, 0 <= ha <= 100 ->
+  let avail := Z.max (maxrow - top - bottom) 0 in
+  let h := int_scale ha 101 (avail + 1) in
+  200 * h <= 2 * ha * avail + 100 < 200 * h + 200 /\ 0 <= h <= avail /\
+  ctbf_height maxrow WRelative ha minh top bottom = match minh with Some m => Z.max h m | None => h end.
+Proof. exact ctbf_height_relative. Qed.
+Print Assumptions ctbf_relative_height.
+
+(* ================================================================== *)
+(* 4. Columns.column_widths (hand model)                               *)
+(* cs : the (kind, amount) options, amount = given width / width reported by pack() / weight.
+   col_ok : given and packed sizes >= 0, weights >= 1.   col_pos : all of them >= 1.
+   width_at F i : width of column i, 0 for a column cut off at the right end of the list.
+   vis_need div F : sum of the positive widths + div * (number of positive widths - 1).   *)
+
+(* no exception (no ZeroDivisionError) with positive weights *)
+Theorem cw_total : forall cs div minw focus maxcol,
+  Forall col_ok cs -> 0 <= div -> 0 <= minw -> 0 <= maxcol -> 0 <= focus < zlen cs ->
+  exists F, column_widths cs div minw focus maxcol = Ok F.
+Proof. exact column_widths_total. Qed.
+Print Assumptions cw_total.
+
+Theorem cw_nonneg_thm : forall cs div minw focus maxcol F,
+  Forall col_ok cs -> 0 <= div -> 0 <= minw -> 0 <= maxcol -> 0 <= focus < zlen cs ->
+  column_widths cs div minw focus maxcol = Ok F ->
+  Forall (fun w => 0 <= w) F /\ focus < zlen F <= zlen cs.
+Proof.
+  intros cs div minw focus maxcol F H1 H2 H3 H4 H5 H6.
+  split; [exact (cw_nonneg cs div minw focus maxcol F H1 H2 H3 H4 H5 H6)
+         |exact (cw_length cs div minw focus maxcol F H1 H2 H3 H4 H5 H6)].
+Qed.
+Print Assumptions cw_nonneg_thm.
+
+Theorem cw_given_own_or_zero_thm : forall cs div minw focus maxcol F,
+  Forall col_ok cs -> 0 <= div -> 0 <= minw -> 0 <= maxcol -> 0 <= focus < zlen cs ->
+  column_widths cs div minw focus maxcol = Ok F ->
+  forall i c, nthz cs i = Some c -> is_weight c = false -> width_at F i = snd c \/ width_at F i = 0.
+Proof. exact cw_given_own_or_zero. Qed.
+Print Assumptions cw_given_own_or_zero_thm.
+
+(* the focus column keeps its own size (given / packed) resp. at least min_width (weighted)
+   whenever that size alone fits into maxcol; so it is visible as soon as that size is >= 1 *)
+Theorem cw_focus_kept_thm : forall cs div minw focus maxcol F,
+  Forall col_ok cs -> 0 <= div -> 0 <= minw -> 0 <= maxcol -> 0 <= focus < zlen cs ->
+  column_widths cs div minw focus maxcol = Ok F ->
+  forall c, nthz cs focus = Some c -> static_of minw c <= maxcol ->
+    (is_weight c = false -> width_at F focus = snd c) /\
+    (is_weight c = true -> minw <= width_at F focus).
+Proof. exact cw_focus_kept. Qed.
+Print Assumptions cw_focus_kept_thm.
+
+Theorem cw_fits_thm : forall cs div minw focus maxcol F,
+  Forall col_ok cs -> 0 <= div -> 0 <= minw -> 0 <= maxcol -> 0 <= focus < zlen cs ->
+  column_widths cs div minw focus maxcol = Ok F ->
+  vis_need div F <= maxcol.
+Proof. exact cw_fits. Qed.
+Print Assumptions cw_fits_thm.
+
+(* exact fill when a weighted column is shown; needs every slot to be visible
+   (min_width >= 1, given and packed sizes >= 1) -- see cw_fills_zero_slot_refuted *)
+Theorem cw_fills_thm : forall cs div minw focus maxcol F,
+  Forall col_ok cs -> 0 <= div -> 0 <= minw -> 0 <= maxcol -> 0 <= focus < zlen cs ->
+  column_widths cs div minw focus maxcol = Ok F ->
+  1 <= minw -> Forall col_pos cs ->
+  (exists i c, nthz cs i = Some c /\ is_weight c = true /\ 0 < width_at F i) ->
+  vis_need div F = maxcol.
+Proof. exact cw_fills. Qed.
+Print Assumptions cw_fills_thm.
+
+(* without that hypothesis the clause is false of the model (and of the code: a zero-width slot
+   still takes its divider): min_width = 0, weights 1 and 1000, dividechars 1, maxcol 5 *)
+Theorem cw_fills_zero_slot_refuted :
+  exists cs div minw focus maxcol F,
+    Forall col_ok cs /\ column_widths cs div minw focus maxcol = Ok F /\
+    (exists i c, nthz cs i = Some c /\ is_weight c = true /\ 0 < width_at F i) /\
+    vis_need div F < maxcol.
+Proof.
+  exists [(KWeight, 1); (KWeight, 1000)], 1, 0, 0, 5, [0; 4].
+  split; [repeat constructor; unfold col_ok; cbn; apply Z.leb_le; reflexivity|].
+  split; [vm_compute; reflexivity|].
+  split; [exists 1, (KWeight, 1000); vm_compute; repeat split; congruence|].
+  vm_compute. reflexivity.
+Qed.
+Print Assumptions cw_fills_zero_slot_refuted.
+
+(* --- proportional shares --- *)
+(* The weighted columns that are shown, as (weight, width) pairs. *)
+Fixpoint shown_weighted (cs : list col) (F : list Z) : list (Z * Z) :=
+  match cs, F with
+  | c :: cs', w :: F' =>
+      if is_weight c && (0 <? w) then (snd c, w) :: shown_weighted cs' F' else shown_weighted cs' F'
+  | _, _ => []
+  end.
+(* every width within bound2/2 columns of  share * weight / (sum of weights) *)
+Definition shares_within (bound2 : Z) (S : list (Z * Z)) : Prop :=
+  let Wt := zsum (map fst S) in let share := zsum (map snd S) in
+  Forall (fun p => - (bound2 * Wt) <= 2 * (snd p * Wt - share * fst p) <= bound2 * Wt) S.
+
+(* FULL statement of the clause ("to within one column unless the minimum width intervenes"):
+   if no shown weighted column sits at min_width, every one is within 1 of its share *)
+Definition cw_proportional_full : Prop :=
+  forall cs div minw focus maxcol F,
+    Forall col_ok cs -> 0 <= div -> 1 <= minw -> 0 <= maxcol -> 0 <= focus < zlen cs ->
+    column_widths cs div minw focus maxcol = Ok F ->
+    let S := shown_weighted cs F in
+    Forall (fun p => minw < snd p) S -> shares_within 2 S.
+
+(* It is FALSE of the faithful model: four columns of weight 1,1,1,5, min_width 1, 13 columns
+   give [2;2;2;7] while the proportional share of the last is 13*5/8 = 8.125 (off by 1.125).
+   The same input on urwid.Columns returns the same widths (corpus/C19, finding C19-prop). *)
+Theorem cw_proportional_within_one_refuted : ~ cw_proportional_full.
+Proof.
+  intros H.
+  specialize (H [(KWeight, 1); (KWeight, 1); (KWeight, 1); (KWeight, 5)] 0 1 0 13 [2; 2; 2; 7]).
+  assert (Hok : Forall col_ok [(KWeight, 1); (KWeight, 1); (KWeight, 1); (KWeight, 5)])
+    by (repeat constructor; unfold col_ok; cbn; apply Z.leb_le; reflexivity).
+  specialize (H Hok ltac:(apply Z.leb_le; reflexivity) ltac:(apply Z.leb_le; reflexivity)
+                ltac:(apply Z.leb_le; reflexivity)
+                ltac:(split; [apply Z.leb_le|apply Z.ltb_lt]; reflexivity)
+                ltac:(vm_compute; reflexivity)).
+  cbv zeta in H.
+  assert (HS : shown_weighted [(KWeight, 1); (KWeight, 1); (KWeight, 1); (KWeight, 5)] [2; 2; 2; 7]
+               = [(1, 2); (1, 2); (1, 2); (5, 7)]) by (vm_compute; reflexivity).
+  rewrite HS in H.
+  assert (Hun : Forall (fun p : Z * Z => 1 < snd p) [(1, 2); (1, 2); (1, 2); (5, 7)])
+    by (repeat constructor).
+  specialize (H Hun). unfold shares_within in H. cbv zeta in H. rewrite Forall_forall in H.
+  specialize (H (5, 7) ltac:(cbn; tauto)). cbn [fst snd map zsum] in H. lia.
+Qed.
+Print Assumptions cw_proportional_within_one_refuted.
+
+(* What IS proved (partial): the loop that hands out the shares (cw_alloc = the third loop
+   of column_widths, run on any list of (weight, index) pairs in ascending weight order, any
+   min_width m, any amount G >= k*m): if no share was raised to m, every share is within
+   (k-1)/2 columns of G*weight/W, k = number of weighted columns -- exact for one column,
+   within 1/2 for two, within ONE for three; and (cw_fills_thm) the shares add up to G.
+   Missing for a top-level statement: the bookkeeping that identifies [shown_weighted cs F]
+   with the (sorted) list the loop ran on.  For k >= 4 "within one" is false (above). *)
+Theorem cw_proportional_partial : forall minw l G al,
+  0 <= minw -> asc l -> Forall (fun p => 1 <= fst p) l -> zlen l * minw <= G -> l <> [] ->
+  cw_alloc minw l G (zsum (map fst l)) = Ok al -> unclamped minw al ->
+  Forall2 (fun x y => dev_ok G (zsum (map fst l)) (zlen l - 1) (fst x) (snd y)) l al.
+Proof. exact cw_alloc_proportional. Qed.
+Print Assumptions cw_proportional_partial.
+
+(* the loop invariant the design asked for: the shares are all >= min_width, are assigned to
+   the indices of the list in order, and add up to exactly G (this is what makes cw_fills true) *)
+Theorem cw_alloc_invariant : forall minw l G W,
+  asc l -> Forall (fun p => 1 <= fst p) l -> W = zsum (map fst l) -> 0 <= minw -> zlen l * minw <= G ->
+  exists al, cw_alloc minw l G W = Ok al /\ map fst al = map snd l /\
+             Forall (fun p => minw <= snd p) al /\ (l <> [] -> zsum (map snd al) = G).
+Proof. exact cw_alloc_spec. Qed.
+Print Assumptions cw_alloc_invariant.
+
+(* sorted() really sorts: the list handed to the loop is a permutation in ascending weight order *)
+Theorem sort_pairs_sorts : forall l, asc (sort_pairs l) /\ Permutation.Permutation l (sort_pairs l).
+Proof. intros l. split; [exact (sort_pairs_asc l)|exact (sort_pairs_perm l)]. Qed.
+Print Assumptions sort_pairs_sorts.
+
+(* ================================================================== *)
+(* 5. Pile.get_item_rows, box branch (hand model)                      *)
+(* pitem_ok : amounts >= 0 (a zero weight is allowed and gets no rows).
+   fixed_sum : rows of the given and packed items.                                        *)
+
+Theorem rows_nonneg_thm : forall items maxrow rows,
+  Forall pitem_ok items -> pile_item_rows items maxrow = Ok rows ->
+  zlen rows = zlen items /\ Forall (fun x => 0 <= x) rows.
+Proof.
+  intros items maxrow rows H1 H2.
+  split; [exact (rows_length items maxrow rows H1 H2)|exact (rows_nonneg items maxrow rows H1 H2)].
+Qed.
+Print Assumptions rows_nonneg_thm.
+
+Theorem rows_given_own_thm : forall items maxrow rows,
+  Forall pitem_ok items -> pile_item_rows items maxrow = Ok rows ->
+  forall i c, nthz items i = Some c -> is_weight c = false -> nthz rows i = Some (snd c).
+Proof. exact rows_given_own. Qed.
+Print Assumptions rows_given_own_thm.
+
+(* (an Ok result means a positively weighted item exists; otherwise PileError) *)
+Theorem rows_sum_thm : forall items maxrow rows,
+  Forall pitem_ok items -> pile_item_rows items maxrow = Ok rows ->
+  fixed_sum items <= maxrow -> zsum rows = maxrow.
+Proof. exact rows_sum. Qed.
+Print Assumptions rows_sum_thm.
+
+(* proportionality of the weighted rows: same arithmetic step as Columns (prop_step), in
+   contents order; "within one" fails for four items as for Columns *)
+Definition rows_proportional_full : Prop :=
+  forall items maxrow rows,
+    Forall pitem_ok items -> pile_item_rows items maxrow = Ok rows -> fixed_sum items <= maxrow ->
+    shares_within 2 (shown_weighted items rows).
+Theorem rows_proportional_within_one_refuted : ~ rows_proportional_full.
+Proof.
+  intros H.
+  specialize (H [(KWeight, 1); (KWeight, 1); (KWeight, 1); (KWeight, 9)] 7 [1; 1; 1; 4]).
+  assert (Hok : Forall pitem_ok [(KWeight, 1); (KWeight, 1); (KWeight, 1); (KWeight, 9)])
+    by (repeat constructor; unfold pitem_ok; cbn; apply Z.leb_le; reflexivity).
+  specialize (H Hok ltac:(vm_compute; reflexivity) ltac:(apply Z.leb_le; reflexivity)).
+  assert (HS : shown_weighted [(KWeight, 1); (KWeight, 1); (KWeight, 1); (KWeight, 9)] [1; 1; 1; 4]
+               = [(1, 1); (1, 1); (1, 1); (9, 4)]) by (vm_compute; reflexivity).
+  rewrite HS in H. unfold shares_within in H. cbv zeta in H. rewrite Forall_forall in H.
+  specialize (H (9, 4) ltac:(cbn; tauto)). cbn [fst snd map zsum] in H. lia.
+Qed.
+Print Assumptions rows_proportional_within_one_refuted.
+
+(* the step both loops share: from a remainder that is within j/2 of ideal, the next rounded
+   share is within (j+1)/2 of its ideal share, and so is the new remainder *)
+Theorem proportional_step : forall W0 G0 G W a w j,
+  0 < a <= W -> 0 <= j -> 0 < W0 ->
+  2 * W * w <= 2 * (G * a) + W < 2 * W * (w + 1) ->
+  - (j * W0) <= 2 * (G * W0 - G0 * W) <= j * W0 ->
+  (- ((j + 1) * W0) <= 2 * (w * W0 - G0 * a) <= (j + 1) * W0) /\
+  (- ((j + 1) * W0) <= 2 * ((G - w) * W0 - G0 * (W - a)) <= (j + 1) * W0).
+Proof. exact prop_step. Qed.
+Print Assumptions proportional_step.
+
+(* ================================================================== *)
+(* 6. GridFlow row breaking (hand model)                               *)
+
+(* every cell appears exactly once, in reading order, at min(cell width, maxcol) *)
+Theorem grid_rows_concat_thm : forall maxcol hsep cells,
+  concat (gridflow_rows maxcol hsep cells) = cells_tagged maxcol cells 0.
+Proof. exact grid_rows_concat. Qed.
+Print Assumptions grid_rows_concat_thm.
+
+(* no row is empty and every row, with its separators, fits into maxcol *)
+Theorem grid_row_fits_thm : forall maxcol hsep cells,
+  Forall (fun row => row <> [] /\ zsum (map snd row) + hsep * (zlen row - 1) <= maxcol)
+         (gridflow_rows maxcol hsep cells).
+Proof. exact grid_row_fits. Qed.
+Print Assumptions grid_row_fits_thm.
+
+(* ================================================================== *)
+(* 7. Padding / Filler / Overlay (hand models around the translated functions) *)
+
+(* Padding, box or flow render, not clipping: the child is rendered min(requested, maxcol)
+   columns wide, never negative when maxcol and the requested width are not *)
+Theorem padding_partition : forall c maxcol pf pack_flow l r,
+  p_wt c <> WClip -> padding_values c (Some maxcol) pf pack_flow = Ok (l, r) ->
+  0 <= l /\ 0 <= r /\
+  padding_child_cols maxcol (l, r) = Z.min (padding_requested c maxcol pf pack_flow) maxcol.
+Proof. exact padding_values_child. Qed.
+Print Assumptions padding_partition.
+
+Theorem padding_clip : forall c maxcol pf pack_flow l r,
+  p_wt c = WClip -> padding_values c (Some maxcol) pf pack_flow = Ok (l, r) -> l + pf + r = maxcol.
+Proof. exact padding_values_clip. Qed.
+Print Assumptions padding_clip.
+
+Theorem padding_align : forall c maxcol pf pack_flow l r,
+  padding_values c (Some maxcol) pf pack_flow = Ok (l, r) ->
+  let W := padding_requested c maxcol pf pack_flow in
+  let A := align_pct (p_at c) (p_aa c) in
+  0 <= A <= 100 -> 0 <= p_left c -> 0 <= p_right c -> 0 <= W -> p_left c + W + p_right c <= maxcol ->
+  l + W + r = maxcol /\ p_left c <= l /\ p_right c <= r /\
+  -100 <= 200 * (l - p_left c) - 2 * A * (maxcol - W - p_left c - p_right c) <= 100.
+Proof. exact padding_values_fits. Qed.
+Print Assumptions padding_align.
+
+Theorem filler_partition : forall c maxrow child_rows t b,
+  filler_values c (Some maxrow) child_rows = Ok (t, b) ->
+  0 <= t /\ 0 <= b /\ maxrow - t - b = Z.min (filler_requested c maxrow child_rows) maxrow.
+Proof. exact filler_values_child. Qed.
+Print Assumptions filler_partition.
+
+Theorem filler_align : forall c maxrow child_rows t b,
+  filler_values c (Some maxrow) child_rows = Ok (t, b) ->
+  let H := filler_requested c maxrow child_rows in
+  let A := valign_pct (f_vt c) (f_va c) in
+  0 <= A <= 100 -> 0 <= f_top c -> 0 <= f_bottom c -> 0 <= H -> f_top c + H + f_bottom c <= maxrow ->
+  t + H + b = maxrow /\ f_top c <= t /\ f_bottom c <= b /\
+  -100 <= 200 * (t - f_top c) - 2 * A * (maxrow - H - f_top c - f_bottom c) <= 100.
+Proof. exact filler_values_fits. Qed.
+Print Assumptions filler_align.
+
+(* Overlay: the size handed to top_w in its three modes; no dimension is negative when the
+   available size and the requested size are not; margins + child = available in each axis *)
+Theorem overlay_fixed_thm : forall c maxcol maxrow pw ph fr l r t b,
+  p_wt (o_pad c) = WPack ->
+  overlay_padding_filler c maxcol maxrow pw ph fr = Ok (l, r, t, b) ->
+  overlay_top_w_size c maxcol maxrow l r t b = [] /\
+  l + pw + r = maxcol /\ t + ph + b = maxrow /\ 0 <= t.
+Proof. exact overlay_fixed. Qed.
+Print Assumptions overlay_fixed_thm.
+
+Theorem overlay_flow_thm : forall c maxcol maxrow pw ph fr l r t b,
+  p_wt (o_pad c) <> WPack -> p_wt (o_pad c) <> WClip -> f_ht (o_fill c) = WPack ->
+  overlay_padding_filler c maxcol maxrow pw ph fr = Ok (l, r, t, b) ->
+  let W := clrp_width maxcol (p_wt (o_pad c)) (p_wa (o_pad c)) (p_minw (o_pad c)) (p_left (o_pad c)) (p_right (o_pad c)) in
+  overlay_top_w_size c maxcol maxrow l r t b = [Z.min W maxcol] /\
+  0 <= l /\ 0 <= r /\ 0 <= t /\ t + fr + b = maxrow.
+Proof. exact overlay_flow. Qed.
+Print Assumptions overlay_flow_thm.
+
+Theorem overlay_box_thm : forall c maxcol maxrow pw ph fr l r t b,
+  p_wt (o_pad c) <> WPack -> p_wt (o_pad c) <> WClip -> f_ht (o_fill c) <> WPack ->
+  overlay_padding_filler c maxcol maxrow pw ph fr = Ok (l, r, t, b) ->
+  let W := clrp_width maxcol (p_wt (o_pad c)) (p_wa (o_pad c)) (p_minw (o_pad c)) (p_left (o_pad c)) (p_right (o_pad c)) in
+  let H := ctbf_height maxrow (f_ht (o_fill c)) (f_ha (o_fill c)) (f_minh (o_fill c)) (f_top (o_fill c)) (f_bottom (o_fill c)) in
+  overlay_top_w_size c maxcol maxrow l r t b = [Z.min W maxcol; Z.min H maxrow] /\
+  0 <= l /\ 0 <= r /\ 0 <= t /\ 0 <= b.
+Proof. exact overlay_box. Qed.
+Print Assumptions overlay_box_thm.
+
+(* ================================================================== *)
+(* 8. Non-vacuity: the models compute non-trivial things               *)
+
+(* the doctest values of the translated functions *)
+Example clrp_doctest_1 : calculate_left_right_padding 15 ACenter 0 WGiven 4 None 2 0 = (6, 5).
+Proof. vm_compute. reflexivity. Qed.
+Example clrp_doctest_2 : calculate_left_right_padding 20 ARelative 30 WRelative 60 (Some 14) 0 0 = (2, 4).
+Proof. vm_compute. reflexivity. Qed.
+Example clrp_doctest_3 : calculate_left_right_padding 15 ARight 0 WClip 18 None 0 (-1) = (-2, -1).
+Proof. vm_compute. reflexivity. Qed.
+Example ctbf_doctest : calculate_top_bottom_filler 20 VRelative 30 WRelative 60 (Some 14) 0 0 = (2, 4).
+Proof. vm_compute. reflexivity. Qed.
+Example int_scale_doctest : int_scale 2 6 101 = 40 /\ int_scale 1 3 4 = 2.
+Proof. vm_compute. split; reflexivity. Qed.
+
+(* Columns: given 3 | weight 1 | weight 2 | given 4, dividechars 1, min_width 2, focus 3.
+   wide: everything shown, filled exactly; narrow: columns dropped on the left, focus kept *)
+Example cw_example_wide :
+  column_widths [(KGiven, 3); (KWeight, 1); (KWeight, 2); (KGiven, 4)] 1 2 3 20 = Ok [3; 3; 7; 4].
+Proof. vm_compute. reflexivity. Qed.
+Example cw_example_narrow :
+  column_widths [(KGiven, 3); (KWeight, 1); (KWeight, 2); (KGiven, 4)] 1 2 3 8 = Ok [0; 0; 3; 4].
+Proof. vm_compute. reflexivity. Qed.
+Example cw_example_cut :
+  column_widths [(KGiven, 3); (KWeight, 1); (KWeight, 2); (KGiven, 4)] 1 2 0 5 = Ok [3].
+Proof. vm_compute. reflexivity. Qed.
+(* the hypotheses of cw_fills_thm are satisfiable and its conclusion is met non-trivially *)
+Example cw_fills_example :
+  vis_need 1 [3; 3; 7; 4] = 20 /\ Forall col_pos [(KGiven, 3); (KWeight, 1); (KWeight, 2); (KGiven, 4)].
+Proof. split; [vm_compute; reflexivity|]. repeat constructor; unfold col_pos; cbn; apply Z.leb_le; reflexivity. Qed.
+
+Example pile_example : pile_item_rows [(KGiven, 2); (KWeight, 1); (KPack, 3); (KWeight, 3)] 14 = Ok [2; 2; 3; 7].
+Proof. vm_compute. reflexivity. Qed.
+Example pile_no_weight : pile_item_rows [(KGiven, 2)] 5 = Err WidgetError.
+Proof. vm_compute. reflexivity. Qed.
+
+Example grid_example :
+  gridflow_rows 10 1 [4; 4; 4; 12] = [[(0, 4); (1, 4)]; [(2, 4)]; [(3, 10)]].
+Proof. vm_compute. reflexivity. Qed.
+
+Example overlay_example :
+  overlay_padding_filler (OvCfg (PadCfg ACenter 0 WRelative 50 None 0 0) (FillCfg VMiddle 0 WGiven 3 None 0 0)) 20 10 0 0 0
+    = Ok (5, 5, 3, 4).
+Proof. vm_compute. reflexivity. Qed.
